@@ -73,6 +73,13 @@ impl PutQuery {
             }
         }
 
+        // None of the nodes gave us a write token (for example the closest nodes came from
+        // a `find_node` query for the same target), so nothing was sent and nothing will
+        // ever complete this query: fail now instead of leaving the caller hanging.
+        if self.inflight_requests.is_empty() {
+            Err(PutQueryError::NoClosestNodes)?;
+        }
+
         Ok(())
     }
 
